@@ -199,6 +199,20 @@ func (w *World) finalChecks(t *simrt.Task) {
 				lockLeft = true
 			}
 		}
+		if crashFree {
+			// "exactly tables.list and the tables it names": a listed table
+			// that is not there is as wrong as a file nobody lists
+			present := map[string]bool{}
+			for _, e := range es {
+				present[e.Name] = true
+			}
+			for _, n := range w.Latest().Names {
+				if !present[n] {
+					w.violate("C16", "residue-quiescent", "listed-table-missing", fmt.Sprintf("at quiescence tables.list names %s, which is not in the directory", n))
+					break
+				}
+			}
+		}
 		if crashFree && len(extra) > 0 && !w.hasOpenAddition() {
 			sort.Strings(extra)
 			var names []string
